@@ -163,4 +163,23 @@ theorem reverse_passes : ∀ (ctx : BCtx) (outs : List BNode) (next : Nat) (o' :
           obtain ⟨rfl, rfl, rfl, rfl⟩ := hr
           exact List.mem_append.2 (Or.inr (reverse_passes prev _ _ o2 e2 p2 n2 h2 n c hp))
 
+theorem hasDupStr_of_nodup : ∀ {xs : List String}, xs.Nodup → hasDupStr xs = false
+  | [], _ => rfl
+  | x :: xs, h => by
+    have h' := List.nodup_cons.1 h
+    simp only [hasDupStr, Bool.or_eq_false_iff]
+    exact ⟨by simpa using h'.1, hasDupStr_of_nodup h'.2⟩
+
+/-- what the context of a wrapped function (`function_to_bag`: no backward inputs or outputs, inherit = its output names) returns when it
+is reversed on nodes with pairwise different names: the clones of the nodes whose names it inherits, and the pass edges -/
+theorem fn_ctx_reverse (inhf : NameSet) (outs : List BNode) (next : Nat) (hnd : (names outs).Nodup) :
+    (BCtx.bag [] [] inhf).reverse outs next =
+      .ok ((cloneEdges false (outs.filter fun m => inhf.mem m.name && !(names []).contains m.name) next).1,
+           (cloneEdges false (outs.filter fun m => inhf.mem m.name && !(names []).contains m.name) next).2.1,
+           (cloneEdges false (outs.filter fun m => inhf.mem m.name && !(names []).contains m.name) next).1,
+           (cloneEdges false (outs.filter fun m => inhf.mem m.name && !(names []).contains m.name) next).2.2) := by
+  have hd : hasDupStr (List.map (fun x : BNode => x.name) outs) = false := hasDupStr_of_nodup hnd
+  simp only [BCtx.reverse, checkDups, names, List.map_nil, hasDupStr, bind, Except.bind, Bool.false_eq_true, if_false,
+    List.filterMap_nil, List.nil_append, hd]
+
 end CM
